@@ -35,8 +35,8 @@ def api_entry(fn):
             return fn(*args, **kwargs)
         except Error as e:
             if include_original_exception:
-                orig_exp = e.__context__
-                if orig_exp is not None:
+                orig_exp = e.__cause__ # not __context__: for an error raised directly that is whatever the caller happens to be handling
+                if orig_exp is not None and orig_exp.__traceback__ is not None:
                     orig_exp.__traceback__ = orig_exp.__traceback__.tb_next # skip "rethrow_as_XXX"
                 reason = orig_exp
             else:
